@@ -571,8 +571,10 @@ class Lib:
                     return VBound(obj, name)
                 attrs = it.eng.class_attrs.get(obj.cls, {})
                 if name in attrs:
+                    if "_cls_" + name in obj.f:
+                        return obj.f["_cls_" + name]
                     v = it.eval(attrs[name], __import__("vc.interp", fromlist=["Env"]).Env())
-                    obj.f[name] = v  # class-level object: one shared instance
+                    obj.f["_cls_" + name] = v  # class-level object: one shared instance
                     return v
                 it.raise_("AttributeError")
             if obj.cls == "file":
